@@ -15,7 +15,10 @@ function from traced constants), so all moduli sets of one option share one comp
 
 Execution-mode protocol (DESIGN C12 / D11): a case that fails in the compiled batch, passes as a single compiled call
 and has (nearly) repeated principal stretches (relative gap of C = F^T F <= 1e-6) is the known finding
-`eigen_sym33_unit|batched|near-repeated-spectrum`; anything else is an ordinary violation.
+`eigen_sym33_unit|batched|near-repeated-spectrum`; a case that fails only in the batch although its spectrum is well
+separated, and for which a float64 replica of the eigen-solver's comparison operands shows an exact tie (margin <= 1e-6) in
+one of its data-dependent decisions on C of F, QF or FQ, is the same root cause outside D11's input class and is reported as
+`eigen_sym33_unit|batched|branch-decision-tie`; anything else is an ordinary violation.
 The rest state of an option is checked first; if it is broken (e.g. D3, J2 'seth hill') that one finding
 `<model>|<option>|virgin-state|nonzero-energy-or-nan` is reported and the product is not run for that option.
 """
@@ -54,17 +57,28 @@ ASSUMPTIONS = [
 TAU_REL = 1e-10
 TAU_ABS = 1e-12
 TAU_REST = 1e-14
+TAU_EIG = 1e-7
 TOLERANCES = {
     "|W(QF)-W(F)|, |W(FQ)-W(F)|": "<= 1e-10 |W(F)| + 1e-12 M c, M = sum of the moduli, c = 1 for energies written in "
-                                  "invariants of F (I1bar - 3: absolute rounding eps M, worst observed see evidence), "
-                                  "c = max|log stretch| + 1e-16 for energies written in a strain tensor",
-    "Kirchhoff stress |P F^T - F P^T|_F": "<= 1e-10 |P|_F |F|_F + 1e-12 M |F|_F^2",
-    "rest state |W(0)|, max|dW/dH(0)|": "<= 1e-14 M (exact zero expected)",
-    "D11 classification": "relative gap of C = F^T F <= 1e-6",
+                                  "invariants of F (I1bar - 3, log det F: absolute rounding eps M) and c = max|log stretch| "
+                                  "for energies written in a strain tensor (rounding eps M |strain|). Worst observed "
+                                  "single-call over both tiers, seeds 0-4: 7.1e-3 of the tolerance (repeated stretches), "
+                                  "2.2e-4 (distinct); relative part 3.6e-14 |W|; absolute part 8.8e-16 M (invariant "
+                                  "type), 1.6e-14 M |strain| (strain type). A non-objective energy changes W by O(1) |W|.",
+    "Kirchhoff stress |P F^T - F P^T|_F": "<= 1e-10 |P|_F |F|_F + 1e-12 M |F|_F^2 (worst observed 1.1e-4 of the tolerance, "
+                                          "1.5e-16 (|P||F| + M|F|^2))",
+    "W from value_and_grad vs W from the energy-only program": "same tolerance as the invariance (worst 1.1e-3 of it)",
+    "eigen-solver accuracy term (models built on eigen_sym33_unit, relative gap of C <= 1e-6 only)":
+        "+ 1e-7 (lam_max/lam_min)^2 max|log stretch| M on both tolerances (C12: the closed-form solver resolves a nearly "
+        "repeated pair to 4.7e-10 |C| at worst; observed here 1.7e-9 |W| for F = diag(1-1e-8, 1+1e-8, 10) turned by 45 degrees)",
+    "rest state |W(0)|, max|dW/dH(0)|": "<= 1e-14 M (exact zero expected; observed exactly 0 for 92 of 102 rest cases, "
+                                        "1.04e-16 M otherwise)",
+    "D11 classification": "relative gap of C = F^T F <= 1e-6; decision tie: margin <= 1e-6 in the float64 replica",
 }
 
 D11_KEY = "eigen_sym33_unit|batched|near-repeated-spectrum"
 D3_KEY = "J2Plastic|kinematics=seth hill|virgin-state|nonzero-energy-or-nan"
+TIE_KEY = "eigen_sym33_unit|batched|branch-decision-tie"
 BATCH = 256
 MAX_RECORDS_PER_KEY = 10
 
@@ -421,19 +435,24 @@ def _run_option(model, opt, kind, cancel, tier, seed, rec):
 
         # ---- judge -----------------------------------------------------------------------------------------
         c_abs = onp.ones(nF) if cancel == "invariant" else (info["logmax"] + 1e-16)
+        # closed-form eigen-solver: eigenvalues of a tensor with a (nearly) repeated pair are accurate to ~5e-10 |C|
+        # (C12: worst 4.7e-10 at relative gap 1e-9, 45 degrees in-plane; tolerance 1e-7 there), i.e. the logarithmic /
+        # power strain to 1e-7 (lam_max/lam_min)^2 at most: a-priori term for that input class
+        eig_term = onp.where((info["gap"] <= 1e-6) & mdl.eigen_based,
+                             TAU_EIG * (info["lam_max"] / info["lam"][:, 0]) ** 2 * (info["logmax"] + 1e-16), 0.0)
         judged = {}
         for mode in ("single", "batched"):
             if res[mode] is None:
                 continue
             Wm, Wb, Pb = res[mode]
             W0 = Wm[:, 0]
-            tolW = TAU_REL * onp.abs(W0) + TAU_ABS * M * c_abs[idx]
+            tolW = TAU_REL * onp.abs(W0) + TAU_ABS * M * c_abs[idx] + M * eig_term[idx]
             with onp.errstate(all="ignore"):
                 dL = onp.abs(Wm[:, 1:1 + nQ] - W0[:, None])
                 dR = onp.abs(Wm[:, 1 + nQ:] - W0[:, None])
                 Kt = Pb @ onp.swapaxes(F[idx], -1, -2)
                 asym = R.fro(Kt - onp.swapaxes(Kt, -1, -2))
-                tolK = TAU_REL * R.fro(Pb) * normF[idx] + TAU_ABS * M * normF[idx] ** 2
+                tolK = TAU_REL * R.fro(Pb) * normF[idx] + (TAU_ABS + eig_term[idx]) * M * normF[idx] ** 2
                 dvg = onp.abs(Wb - W0)
             okL = dL <= tolW[:, None]           # False for NaN
             okR = dR <= tolW[:, None]
@@ -508,6 +527,22 @@ def _report(rec, mdl, mode, cid, cls, gap, sig, single_ok, detail):
         rec.branch("protocol:batched-fail/single-pass/near-repeated -> D11")
         _violation(rec, D11_KEY, cid, detail)
         return "d11:" + cls
+    if mode == "batched" and single_ok and mdl.eigen_based:
+        # same root cause as D11 outside its input class: an exact floating-point comparison of the closed-form eigen-solver
+        # (pivot row, second row, shift sign, eigenvector formula) is a tie on C of F, QF or FQ (measured with a float64
+        # replica of the solver's operands), so rounding decides it and the compiled batch decides it inconsistently
+        from mc.ref import material_ref as R
+        ties = []
+        for nm, G in (("F", detail["F"]),) + ((("QF", detail["Q"] @ detail["F"]), ("FQ", detail["F"] @ detail["Q"]))
+                                               if "Q" in detail else ()):
+            t, which, margin = R.eigen_decision_tie(G.T @ G)
+            if t:
+                ties.append("%s:%s(margin %.1e)" % (nm, which, margin))
+        if ties:
+            detail["eigen_solver_decision_ties"] = ties
+            rec.branch("protocol:batched-fail/single-pass/eigen-solver decision tie -> D11 family (separated spectrum)")
+            _violation(rec, TIE_KEY, cid, detail)
+            return "d11-tie:" + cls
     rec.branch("protocol:ordinary-violation")
     # one defect -> one key: mode only distinguishes failures that exist in the compiled batch alone; the stretch class
     # and the side (QF / FQ) are in the detail, not in the key
